@@ -113,6 +113,8 @@ type EnvOpts struct {
 	Origin    common.Address
 	GasPrice  *big.Int
 	NoHost    bool // do not put a Host into the context
+	// WrapState, when set, wraps the StateDB handed to the EVM (observation of state reads/writes)
+	WrapState func(vm.StateDB) vm.StateDB
 }
 
 var (
@@ -167,7 +169,11 @@ func NewEnv(o EnvOpts) *Env {
 	if o.Tracer {
 		cfg.Tracer = e.Rec
 	}
-	e.EVM = vm.NewEVM(bc, vm.TxContext{Origin: e.Origin, GasPrice: gp}, e.State, e.Cfg, cfg)
+	var sdb vm.StateDB = e.State
+	if o.WrapState != nil {
+		sdb = o.WrapState(sdb)
+	}
+	e.EVM = vm.NewEVM(bc, vm.TxContext{Origin: e.Origin, GasPrice: gp}, sdb, e.Cfg, cfg)
 	e.Ctx = context.Background()
 	if !o.NoHost {
 		e.Ctx = WithHost(e.Ctx, e.Host)
